@@ -415,6 +415,33 @@ pub fn gen_c09(rng: &mut Rng, d: &mut Dist, _idx: u64) -> Vec<String> {
             }
         }
     }
+    // a broker joins, takes over some partitions, and the client learns about it by loading one topic again (no reset): the
+    // requests that follow state what was asked, to the broker that leads it now
+    if rng.chance(1, 3) && cl.topics.iter().all(|t| t.name.len() < 100) {
+        bump(d, "broker-joins-then-topic-reloaded");
+        let id = 40 + rng.below(5) as i32;
+        out.push(format!("BROKER {} {} 9092", id, h(&format!("j{}", id))));
+        out.push(format!("ORDER {}", rng.pick(&["rev", "rot 1", "req"])));
+        let ti = rng.below(cl.topics.len() as u64) as usize;
+        let tn = cl.topics[ti].name.clone();
+        let np = cl.topics[ti].leaders.len();
+        for p in 0..np {
+            if rng.chance(1, 2) {
+                out.push(format!("LEADER {} {} {}", h(&tn), p, id));
+            }
+        }
+        out.push(format!("OP c load_metadata {}", h(&tn)));
+        let mut fm = String::from("OP c fetch_messages");
+        let mut pr = String::from("OP c produce 1 1 0");
+        for p in 0..np.min(6) {
+            fm.push_str(&format!(" {} {} 0 -1", h(&tn), p));
+            pr.push_str(&format!(" {} {} ~ {:02x}", h(&tn), p, p));
+        }
+        out.push(fm);
+        out.push(format!("OP c fetch_offsets -1 {}", h(&tn)));
+        out.push(format!("OP c list_offsets -2 {}", h(&tn)));
+        out.push(pr);
+    }
     // the producer's requests are requests of this client library too: headers and bodies must state what its builder was given
     if rng.chance(1, 3) {
         let mut uniq = 5000u32;
@@ -1482,7 +1509,24 @@ pub fn gen_c19(rng: &mut Rng, d: &mut Dist, _idx: u64) -> Vec<String> {
     out.push(format!("OP consumer_create hosts={} {}", cl.bootstrap(), opts.join(" ")));
     out.push("OP subscriptions".into());
     let nops = 3 + rng.below(8);
-    for _ in 0..nops {
+    // the consumed set is fixed at creation: a topic that grows afterwards, loaded again by the consumer's own client, changes
+    // nothing about it
+    let grow_at = if rng.chance(1, 3) { Some(rng.below(nops)) } else { None };
+    for op_no in 0..nops {
+        if grow_at == Some(op_no) {
+            bump(d, "topic-grows-after-creation");
+            let ti = rng.below(cl.topics.len() as u64) as usize;
+            let old = cl.topics[ti].leaders.len();
+            let first = cl.brokers[0].0;
+            cl.topics[ti].leaders.push(first);
+            out.push(format!("TOPIC {} {}", h(&cl.topics[ti].name), old + 1));
+            out.push(format!("LEADER {} {} {}", h(&cl.topics[ti].name), old, first));
+            out.push(format!("APPEND {} {} plain 0 ~ dd", h(&cl.topics[ti].name), old));
+            out.push(if rng.chance(1, 2) { "OP k load_metadata_all".to_string() } else { format!("OP k load_metadata {}", h(&cl.topics[ti].name)) });
+            out.push("OP subscriptions".into());
+            out.push("OP poll".into());
+            out.push(format!("OP seek {} {} 0", h(&cl.topics[ti].name), old));
+        }
         let t = if rng.chance(1, 10) { "ghost".to_string() } else { rng.pick(&cl.topics).name.clone() };
         let np = cl.topics.iter().find(|x| x.name == t).map(|x| x.leaders.len()).unwrap_or(2) as i64;
         let p = if rng.chance(1, 8) { *rng.pick(&[np, -1i64]) } else { rng.range(0, np - 1) };
@@ -1761,6 +1805,32 @@ pub fn gen_c06(rng: &mut Rng, d: &mut Dist, _idx: u64) -> Vec<String> {
                 if rng.chance(1, 2) {
                     cl.topics[ti].leaders[n - 1] = first;
                     out.push(format!("LEADER {} {} {}", h(&cl.topics[ti].name), n - 1, first));
+                }
+            }
+            7 => {
+                // a broker is replaced: it leaves, a new node id takes over what it led - seen by the client through a load
+                // that need not mention every topic
+                if cl.brokers.len() > 1 {
+                    bump(d, "mut-broker-replaced");
+                    let i = 1 + rng.below(cl.brokers.len() as u64 - 1) as usize;
+                    let gone = cl.brokers.remove(i);
+                    out.push(format!("DELBROKER {}", gone.0));
+                    let id = next_id;
+                    next_id += 1;
+                    // the newcomer is listed wherever the broker pleases
+                    cl.brokers.insert(rng.below(cl.brokers.len() as u64 + 1) as usize, (id, format!("n{}", id), 9092));
+                    out.push(format!("BROKER {} {} 9092", id, h(&format!("n{}", id))));
+                    if rng.chance(1, 2) {
+                        out.push(format!("ORDER {}", rng.pick(&["rev", "rot 1", "rot 2", "req"])));
+                    }
+                    for t in cl.topics.iter_mut() {
+                        for p in 0..t.leaders.len() {
+                            if t.leaders[p] == gone.0 && rng.chance(2, 3) {
+                                t.leaders[p] = id;
+                                out.push(format!("LEADER {} {} {}", h(&t.name), p, id));
+                            }
+                        }
+                    }
                 }
             }
             6 => {
